@@ -1,0 +1,126 @@
+//go:build verif
+// +build verif
+
+package storage
+
+import (
+	"github.com/marekgalovic/anndb/cluster"
+	"github.com/marekgalovic/anndb/index"
+	pb "github.com/marekgalovic/anndb/protobuf"
+	"github.com/marekgalovic/anndb/storage/raft"
+	"github.com/marekgalovic/anndb/utils"
+
+	badger "github.com/dgraph-io/badger/v2"
+	uuid "github.com/satori/go.uuid"
+	"sync"
+)
+
+// Verification hooks. Compiled only with -tags verif. They construct the unexported objects
+// exactly as the production callers do and expose read-only views; no existing line changes.
+
+// VerifNewDataset builds a Dataset the way DatasetManager.createDataset does.
+func VerifNewDataset(id uuid.UUID, meta pb.Dataset, db *badger.DB, transport *raft.RaftTransport, conn *cluster.Conn, dm *DatasetManager) (*Dataset, error) {
+	return newDataset(id, meta, db, transport, conn, dm)
+}
+
+// VerifBareDatasetManager is a DatasetManager without a raft group (lookups only).
+func VerifBareDatasetManager(db *badger.DB, transport *raft.RaftTransport, conn *cluster.Conn, allocator *Allocator) *DatasetManager {
+	return &DatasetManager{
+		raftWalDB:     db,
+		raftTransport: transport,
+		clusterConn:   conn,
+		allocator:     allocator,
+		datasets:      make(map[uuid.UUID]*Dataset),
+		datasetsMu:    &sync.RWMutex{},
+		notificator:   utils.NewNotificator(),
+	}
+}
+
+// VerifPutDataset registers d without going through the catalogue log.
+func (this *DatasetManager) VerifPutDataset(d *Dataset) {
+	this.datasetsMu.Lock()
+	defer this.datasetsMu.Unlock()
+	this.datasets[d.id] = d
+}
+
+// VerifApply feeds one catalogue log entry to the manager (what the shared group does).
+func (this *DatasetManager) VerifApply(data []byte) error { return this.process(data) }
+
+// VerifSnapshot / VerifRestore are the catalogue snapshot functions.
+func (this *DatasetManager) VerifSnapshot() ([]byte, error) { return this.snapshot() }
+func (this *DatasetManager) VerifRestore(data []byte) error { return this.processSnapshot(data) }
+
+// VerifExpect creates a notification channel (capacity 1) whose id can be put into a change.
+func (this *DatasetManager) VerifExpect() (<-chan interface{}, uuid.UUID) {
+	return this.notificator.Create(1)
+}
+
+func (this *Dataset) VerifId() uuid.UUID       { return this.id }
+func (this *Dataset) VerifPartitionCount() int { return len(this.partitions) }
+func (this *Dataset) VerifPartition(i int) *VerifPartition {
+	return &VerifPartition{this.partitions[i]}
+}
+func (this *Dataset) VerifPartitionIndexFor(id uuid.UUID) int {
+	p := this.getPartitionForId(id)
+	for i, q := range this.partitions {
+		if p == q {
+			return i
+		}
+	}
+	return -1
+}
+
+// VerifPartition is a view of one partition state machine.
+type VerifPartition struct{ p *partition }
+
+func (v *VerifPartition) Id() uuid.UUID                   { return v.p.id }
+func (v *VerifPartition) NodeIds() []uint64               { return v.p.nodeIds() }
+func (v *VerifPartition) Index() *index.Hnsw              { return v.p.index }
+func (v *VerifPartition) Len() int                        { return v.p.len() }
+func (v *VerifPartition) BytesSize() uint64               { return v.p.bytesSize() }
+func (v *VerifPartition) Apply(data []byte) error         { return v.p.process(data) }
+func (v *VerifPartition) Snapshot() ([]byte, error)       { return v.p.snapshot() }
+func (v *VerifPartition) Restore(data []byte) error       { return v.p.processSnapshot(data) }
+func (v *VerifPartition) LoadRaft(nodeIds []uint64) error { return v.p.loadRaft(nodeIds) }
+func (v *VerifPartition) UnloadRaft() error               { return v.p.unloadRaft() }
+func (v *VerifPartition) Raft() *raft.RaftGroup {
+	v.p.raftMu.RLock()
+	defer v.p.raftMu.RUnlock()
+	return v.p.raft
+}
+
+// Expect creates a notification channel (capacity 1) on the partition's notificator, so that a
+// harness that applies an entry directly can capture the outcome the entry reports.
+func (v *VerifPartition) Expect() (<-chan interface{}, uuid.UUID) {
+	return v.p.notificator.Create(1)
+}
+func (v *VerifPartition) Unexpect(id uuid.UUID) { v.p.notificator.Remove(id) }
+
+// VerifStandalonePartition builds a partition state machine that is not attached to any raft group.
+func VerifStandalonePartition(meta pb.Dataset, db *badger.DB) (*VerifPartition, error) {
+	id := uuid.NewV4()
+	pid := uuid.NewV4()
+	meta.PartitionCount = 1
+	meta.Partitions = []*pb.Partition{{Id: pid.Bytes()}}
+	d, err := newDataset(id, meta, db, nil, nil, nil)
+	if err != nil {
+		return nil, err
+	}
+	return &VerifPartition{d.partitions[0]}, nil
+}
+
+// VerifAllocatorPlacement calls the allocator's placement function.
+func (this *Allocator) VerifPlacement(partitionCount uint, replicationFactor uint) [][]uint64 {
+	return this.getPartitionsNodeIds(partitionCount, replicationFactor)
+}
+
+// VerifWatched lists the partitions the allocator watches.
+func (this *Allocator) VerifWatched() []uuid.UUID {
+	this.partitionsMu.RLock()
+	defer this.partitionsMu.RUnlock()
+	var out []uuid.UUID
+	for id := range this.partitions {
+		out = append(out, id)
+	}
+	return out
+}
